@@ -174,6 +174,10 @@ where
         {
             return Err(Report::msg("provided range exceeds set size"));
         }
+        // an empty range writes nothing: the leaf count must not move to `start`
+        if leaves_len == 0 {
+            return Ok(());
+        }
         for (i, leaf) in leaves.enumerate() {
             self.nodes.insert((self.depth, start + i), leaf);
             self.cached_leaves_indices[start + i] = 1;
